@@ -21,7 +21,7 @@ func init() {
 		ID:    "C17",
 		Level: "model_checking",
 		Rule: "product of genesis states: each of the five keyed lists as every sequence of length <=3 over 4 entries {(k1,v1),(k1,v2),(k2,v1),(k3,v1)} (85 per list), one list at a time (quick) and every pair of lists (thorough), " +
-			"x optional scalars present/absent (2^3) x roles empty/valid; duplicate key => Validate must reject; accepted by Validate and InitGenesis => export(init(g)) == g as multisets with documented defaults; " +
+			"x optional scalars present/absent (2^3) x both pause flags (2^2) x roles empty/valid; duplicate key => Validate must reject; accepted by Validate and InitGenesis => export(init(g)) == g as multisets with documented defaults; " +
 			"plus BFS (depth 3 quick / 4 thorough, sharded) over one or two parameterisations of all 25 transaction types: in every reachable state init(export(s)) into an empty store must reproduce the raw module store key for key; " +
 			"distinct_nontrivial = distinct genesis shapes with a duplicate or accepted round trip + distinct reachable store shapes",
 		Assumptions: []string{"nil and empty byte strings, absent and zero amounts are identified when comparing", "a panic in InitGenesis counts as 'not accepted by initialisation'"},
@@ -181,13 +181,15 @@ func c17Product(r *Run, list1, list2 string) {
 		mod  func(g *cctptypes.GenesisState)
 	}
 	var variants []variant
-	for mask := 0; mask < 8; mask++ {
+	for mask := 0; mask < 32; mask++ {
 		for _, roles := range []string{"valid", "empty"} {
-			if list2 != "" && (mask != 0 && mask != 7 || roles == "empty") {
+			if list2 != "" && (mask != 0 && mask != 31 || roles == "empty") {
 				continue
 			}
 			mask, roles := mask, roles
-			variants = append(variants, variant{fmt.Sprintf("optionals=%03b roles=%s", mask, roles), func(g *cctptypes.GenesisState) {
+			variants = append(variants, variant{fmt.Sprintf("optionals=%03b flags=%02b roles=%s", mask&7, mask>>3, roles), func(g *cctptypes.GenesisState) {
+				g.BurningAndMintingPaused = &cctptypes.BurningAndMintingPaused{Paused: mask&8 != 0}
+				g.SendingAndReceivingMessagesPaused = &cctptypes.SendingAndReceivingMessagesPaused{Paused: mask&16 != 0}
 				if mask&1 != 0 {
 					g.MaxMessageBodySize = nil
 				}
